@@ -164,7 +164,7 @@ def identity_of(resp):
     nid = getattr(resp, "name_id", None)
     out["name_id"] = None if nid is None else {
         "text": nid.text, "format": nid.format, "sp_name_qualifier": nid.sp_name_qualifier,
-        "name_qualifier": nid.name_qualifier}
+        "name_qualifier": nid.name_qualifier, "sp_provided_id": nid.sp_provided_id}
     try:
         out["issuer"] = resp.issuer()
     except Exception as exc:
